@@ -60,6 +60,7 @@ type c16Params struct {
 	stopAt   time.Duration
 	cancelAt time.Duration
 	slowCb   bool
+	emptyPct int   // share of get-entries answers that are a 200 reply with zero entries (at most two in a row per request)
 	failFrom int64 // requests starting at or beyond this index always fail with gRPC Unavailable (a dead back end); -1 = never
 }
 
@@ -68,8 +69,8 @@ func (p *c16Params) String() string {
 	for _, x := range p.growth {
 		g += fmt.Sprintf("+%v:%d", x.at, x.size)
 	}
-	return fmt.Sprintf("%s scan=%v range=[%d,%d) batch=%d par=%d cont=%v match=%d/%s buf=%d preonly=%v size0=%d growth=%s err=%d%% short=%d%% stop=%v cancel=%v failFrom=%d seed=%d fseed=%d",
-		p.id, p.scan, p.start, p.end, p.batch, p.par, p.cont, p.nMatch, p.mName, p.buf, p.preOnly, p.size0, g, p.errPct, p.shortPct, p.stopAt, p.cancelAt, p.failFrom, p.seed, p.fseed)
+	return fmt.Sprintf("%s scan=%v range=[%d,%d) batch=%d par=%d cont=%v match=%d/%s buf=%d preonly=%v size0=%d growth=%s err=%d%% short=%d%% empty=%d%% stop=%v cancel=%v failFrom=%d seed=%d fseed=%d",
+		p.id, p.scan, p.start, p.end, p.batch, p.par, p.cont, p.nMatch, p.mName, p.buf, p.preOnly, p.size0, g, p.errPct, p.shortPct, p.emptyPct, p.stopAt, p.cancelAt, p.failFrom, p.seed, p.fseed)
 }
 
 type c16Delivery struct {
@@ -91,6 +92,8 @@ type c16Client struct {
 	size      int64
 	attempts  map[[2]int64]int
 	errRun    map[[2]int64]int
+	emptyRun  map[[2]int64]int
+	retained  []EntryBatch // the batches exactly as handed to the callback (no copy): a consumer may keep them
 	sthCalls  int
 	delivered []c16Delivery
 	callbacks []c16Callback
@@ -215,6 +218,13 @@ func (c *c16Client) GetRawEntries(ctx context.Context, start, end int64) (*ct.Ge
 		}
 	}
 	c.errRun[key] = 0
+	if int((h>>48)%100) < c.p.emptyPct && c.emptyRun[key] < 2 {
+		// a 200 reply without entries: not an error, not progress either; the range must still be completed
+		c.emptyRun[key]++
+		c.out.T(fmt.Sprintf("ret %d %d 0", start, end), "ok")
+		return &ct.GetEntriesResponse{}, nil
+	}
+	c.emptyRun[key] = 0
 	n := end - start + 1
 	k := n
 	if int((h>>24)%100) < c.p.shortPct {
@@ -235,6 +245,7 @@ func (c *c16Client) onBatch(b EntryBatch) {
 	}
 	c.mu.Lock()
 	defer c.mu.Unlock()
+	c.retained = append(c.retained, b)
 	ids := make([]uint64, len(b.Entries))
 	for j := range b.Entries {
 		e := b.Entries[j]
@@ -301,7 +312,7 @@ func c16ClassTable(p *c16Params, src *verifkit.SrcLog) (string, [verifkit.NClass
 
 func c16Run(out *verifkit.Out, p *c16Params) {
 	src := verifkit.NewSrcLog(p.seed, !p.scan)
-	c := &c16Client{out: out, p: p, src: src, size: p.size0, maxSize: p.size0, attempts: map[[2]int64]int{}, errRun: map[[2]int64]int{}}
+	c := &c16Client{out: out, p: p, src: src, size: p.size0, maxSize: p.size0, attempts: map[[2]int64]int{}, errRun: map[[2]int64]int{}, emptyRun: map[[2]int64]int{}}
 	table, sel := "", [verifkit.NClasses]bool{}
 	if p.scan {
 		table, sel = c16ClassTable(p, src)
@@ -511,6 +522,19 @@ func c16Run(out *verifkit.Out, p *c16Params) {
 			}
 		}
 	}
+	if !p.scan {
+		// a consumer that keeps the batches it was given (migrillian queues them on a channel) must still find the log's bytes in them
+		// after the fetch is over
+		for _, b := range c.retained {
+			for j := range b.Entries {
+				want := src.Entry(b.Start + int64(j))
+				if !bytes.Equal(b.Entries[j].LeafInput, want.LeafInput) || !bytes.Equal(b.Entries[j].ExtraData, want.ExtraData) {
+					out.Fail("payload-retained "+key, fmt.Sprintf("the batch handed to the callback with Start=%d holds, after Run returned, other bytes at position %d than the log's entry %d: its Entries were overwritten", b.Start, j, b.Start+int64(j)))
+					break
+				}
+			}
+		}
+	}
 	rangeCheck := func(have map[int64]int, what string) {
 		var idx []int64
 		for i, n := range have {
@@ -646,6 +670,7 @@ func c16Gen(r *verifkit.Rand, it int) *c16Params {
 		p.end = 0
 	}
 	p.errPct = c16Pick(r, 0, 0, 10, 30)
+	p.emptyPct = c16Pick(r, 0, 0, 0, 10, 30)
 	p.shortPct = c16Pick(r, 0, 30, 60, 100)
 	p.slowCb = r.Intn(3) == 0
 	if r.Intn(10) < 3 {
@@ -757,6 +782,8 @@ func TestVerifC16(t *testing.T) {
 		// and then waits to hand out the next range; cancellation ends both. ScanLog then reads the end index the generator wrote.
 		{id: "r0", target: -1, scan: true, size0: 6, batch: 3, par: 1, nMatch: 1, seed: 24, failFrom: 3, cont: true, growth: []c16Growth{{30 * time.Second, 40}}, cancelAt: 10 * time.Minute, matcher: MatchAll{}, mName: "all"},
 		{id: "r1", target: -1, size0: 6, batch: 3, par: 1, nMatch: 1, seed: 25, failFrom: 3, cont: true, growth: []c16Growth{{30 * time.Second, 40}}, cancelAt: 10 * time.Minute},
+		{id: "e0", target: -1, size0: 6, batch: 2, par: 1, nMatch: 1, seed: 26, emptyPct: 100},
+		{id: "e1", target: -1, scan: true, size0: 40, batch: 7, par: 3, nMatch: 2, seed: 27, emptyPct: 30, shortPct: 30, matcher: MatchAll{}, mName: "all"},
 		{id: "b8", target: -1, scan: true, size0: 90, batch: 1000, par: 1, nMatch: 3, buf: 1000, seed: 9, matcher: CertParseFailMatcher{}, mName: "parsefail", preOnly: true},
 	}
 	for _, p := range fixed {
